@@ -980,6 +980,21 @@ def _generate_validator_expression_for(field_ir, ir):
     return result
 
 
+def _render_value_out_of_range_test(expression_type, logical_type):
+    """Renders a C++ test that emboss_reserved_local_value is out of range."""
+    if expression_type.which_type != "integer":
+        # Booleans and enums have no range narrower than their C++ type.
+        return "false"
+    return (
+        "(emboss_reserved_local_value < static_cast</**/ {0}>({1}) || "
+        "emboss_reserved_local_value > static_cast</**/ {0}>({2}))".format(
+            logical_type,
+            _render_integer(int(expression_type.integer.minimum_value)),
+            _render_integer(int(expression_type.integer.maximum_value)),
+        )
+    )
+
+
 def _generate_structure_virtual_field_methods(enclosing_type_name, field_ir, ir):
     """Generates C++ code for methods for a single virtual field.
 
@@ -1045,6 +1060,9 @@ def _generate_structure_virtual_field_methods(enclosing_type_name, field_ir, ir)
             logical_type=logical_type,
             destination=destination,
             transform=transform,
+            value_out_of_range=_render_value_out_of_range_test(
+                field_ir.read_transform.type, logical_type
+            ),
         )
     else:
         write_methods = ""
